@@ -78,6 +78,13 @@ theorem C07_monitor_never_blocks (W : World) (s : State) (ch : Nat)
   · simp [step, runMon, hm]
   · simp [step, runMon, hm]
 
+/-- F6s: between receiving a report and answering it the monitor performs at most one event submission (the
+`.submitErr` step before `.replyErr`); in the code that submission is the non-blocking `submitEvent`, so a full
+callback queue cannot keep the answer from the reporter. -/
+theorem C07_answer_does_not_wait_for_queue :
+    Facts.monitorBlockingSubmits = 0 ∧ Facts.submitEventHasDefault = true := by
+  decide
+
 theorem C07_reply_capacity : Facts.capInstalled = 1 ∧ Facts.capResp = 1 ∧ Facts.capWatcher = 0 := by
   decide
 
